@@ -351,6 +351,7 @@ func (w *World) atomsInto(fi *FuncInfo, fd *funcDefs, e ast.Expr, a *Atoms, seen
 			// a new function: looked through (results; parameters are bound to call-site
 			// arguments when reached), not recorded as a call
 			w.atomsOfNewCall(w.Funcs[name], -1, a, depth)
+			return // (its arguments matter only where its parameters are used)
 		} else if tgt := w.Funcs[name]; w.deep.on && tgt != nil && tgt.Decl.Body != nil && isPredicateFn(tgt) && !w.deep.busy[name] && w.deep.depth < 2 {
 			// deep mode (decision fingerprints): what a gleece predicate returns and what it
 			// branches on are what the caller decides on; the predicate's own name and shape
@@ -974,4 +975,22 @@ func (w *World) helperBody(fi *FuncInfo, e ast.Expr) ast.Node {
 		}
 	}
 	return nil
+}
+
+// exprIsJustField: the expression is the given field and nothing else - the selector
+// itself, or (inside a new function) a parameter to which every call site passes it;
+// conversions are allowed, no other field or call takes part.
+func (w *World) exprIsJustField(fi *FuncInfo, qual string) func(ast.Expr) bool {
+	return func(e ast.Expr) bool {
+		at := w.exprAtoms(fi, e)
+		if !at.Fields[qual] || len(at.Fields) != 1 {
+			return false
+		}
+		for k := range at.Calls {
+			if !strings.HasPrefix(k, "conv:") {
+				return false
+			}
+		}
+		return true
+	}
 }
